@@ -333,6 +333,9 @@ PROPS = {
             "BPT.Props.C12.step_refines", "BPT.Props.C12.run_refines", "BPT.Props.C12.refines_dict",
             "BPT.Props.C12.iterator_fail_fast", "BPT.Props.C12.mutation_bumps_stamp",
             "BPT.Props.C12.iterator_stale_after_set", "BPT.Props.C12.iterator_stale_after_del", "BPT.Props.C12.wupdate_spec",
+            "BPT.Props.C12.items_sorted_complete", "BPT.Props.C12.next_yields_head",
+            "BPT.C.iterNext_pos", "BPT.C.drain_pos", "BPT.C.items_spec", "BPT.C.skipEmpty_suffix",
+            "BPT.C.wpopitem_spec", "BPT.C.wcopy_spec", "BPT.C.wclear_spec", "BPT.C.firstItem_spec",
             "BPT.C.insertRec_spec", "BPT.C.deleteRec_spec", "BPT.C.findRec_spec", "BPT.C.setitem_spec", "BPT.C.delitem_spec",
             "BPT.C.getitem_spec", "BPT.C.contains_spec", "BPT.C.len_spec", "BPT.C.cinv_new", "BPT.C.routePos_eq",
         ],
@@ -342,8 +345,7 @@ PROPS = {
             {"kind": "c", "suite": "c-exh", "quick": {"cases": 240, "len": 3}, "thorough": {"cases": 2600, "len": 4}},
         ],
         "nontrivial": "a case is non-trivial when the tree grew beyond a single leaf and at least one deletion succeeded; every case picks one of three ways to drive the extension (the type, a trivial Python subclass, the package wrapper) and one of four key representations (exact int, exact str, user-defined class with rich comparison, ints beyond C long); iterators are created, advanced, interleaved with mutations and advanced again; c-exh enumerates every set/del history of the given depth over 3 keys in the middle of a multi-leaf tree; the full structural dump (incl. emptied leaves) is compared with the model; distinct = distinct op-line sequences",
-        "trusted_extra": ["that a drained iterator (list(t.items()), keys(), and the wrapper's values / popitem / copy / clear built on it) yields exactly the entries in key order, skipping emptied leaves, is decided by the dict oracle and the model/implementation correspondence, not yet by a Lean theorem",
-                          "the three comparison fast paths (exact int, exact str, rich compare) and PyArg parsing are glue covered by the correspondence run only"],
+        "trusted_extra": ["the three comparison fast paths (exact int, exact str, rich compare) and PyArg parsing are glue covered by the correspondence run only"],
     },
     "C13": {
         "title": "C extension is memory-safe and balances reference counts",
